@@ -33,18 +33,18 @@ STUB_IO = STUB_GRAPH + ['SimDisk: which bytes survive a writer crash (cut offset
 
 # runs per (tier, config).  'vg' = valgrind memcheck over the g2 binary, 'g2w' = g2 with the wild malformed-text alphabet
 SPECS = {
-    'C01': dict(level='exploration', q=[('g2', 120000), ('gd', 6000)], t=[('g2', 4000000), ('gd', 150000), ('ca', 150000)], stub=STUB_IO),
-    'C02': dict(level='exploration', q=[('g2', 120000), ('gd', 6000)], t=[('g2', 4000000), ('gd', 150000), ('ca', 150000)], stub=STUB_IO),
-    'C03': dict(level='exploration', q=[('g2', 120000), ('gd', 6000)], t=[('g2', 4000000), ('gd', 150000), ('ca', 150000)], stub=STUB_IO),
-    'C04': dict(level='exploration', q=[('g2', 400000), ('gd', 12000)], t=[('g2', 5000000), ('gd', 200000), ('ca', 200000)], stub=STUB_GRAPH),
-    'C05': dict(level='exploration', q=[('g2', 110000), ('gd', 6000)], t=[('g2', 5000000), ('gd', 200000), ('ca', 200000)], stub=STUB_GRAPH),
-    'C06': dict(level='exploration', q=[('g2', 100000), ('gd', 5000)], t=[('g2', 3000000), ('gd', 120000), ('ca', 120000)], stub=STUB_IO),
-    'C07': dict(level='exploration', q=[('gd', 12000), ('ca', 12000), ('g2', 60000)], t=[('gd', 300000), ('ca', 300000), ('g2', 2000000)], stub=STUB_GRAPH),
-    'C13': dict(level='exploration', q=[('g2', 120000), ('gd', 8000), ('ca', 8000)], t=[('g2', 1200000), ('gd', 60000), ('ca', 60000)], stub=STUB_IO),
-    'C14': dict(level='exploration', q=[('g2', 120000), ('gd', 8000), ('ca', 8000)], t=[('g2', 1200000), ('gd', 60000), ('ca', 60000)], stub=STUB_IO),
+    'C01': dict(level='exploration', q=[('g2', 120000), ('gd', 6000)], t=[('g2', 1500000), ('gd', 150000), ('ca', 150000)], stub=STUB_IO),
+    'C02': dict(level='exploration', q=[('g2', 120000), ('gd', 6000)], t=[('g2', 1500000), ('gd', 150000), ('ca', 150000)], stub=STUB_IO),
+    'C03': dict(level='exploration', q=[('g2', 120000), ('gd', 6000)], t=[('g2', 1500000), ('gd', 150000), ('ca', 150000)], stub=STUB_IO),
+    'C04': dict(level='exploration', q=[('g2', 400000), ('gd', 12000)], t=[('g2', 2000000), ('gd', 200000), ('ca', 200000)], stub=STUB_GRAPH),
+    'C05': dict(level='exploration', q=[('g2', 110000), ('gd', 6000)], t=[('g2', 2000000), ('gd', 200000), ('ca', 200000)], stub=STUB_GRAPH),
+    'C06': dict(level='exploration', q=[('g2', 100000), ('gd', 5000)], t=[('g2', 1500000), ('gd', 120000), ('ca', 120000)], stub=STUB_IO),
+    'C07': dict(level='exploration', q=[('gd', 12000), ('ca', 12000), ('g2', 60000)], t=[('gd', 200000), ('ca', 250000), ('g2', 1200000)], stub=STUB_GRAPH),
+    'C13': dict(level='exploration', q=[('g2', 120000), ('gd', 8000), ('ca', 8000)], t=[('g2', 1200000), ('gd', 80000), ('ca', 80000)], stub=STUB_IO),
+    'C14': dict(level='exploration', q=[('g2', 100000), ('gd', 5000), ('ca', 5000)], t=[('g2', 1200000), ('gd', 80000), ('ca', 80000)], stub=STUB_IO),
     'C15': dict(level='fault_enumeration', q=[('g2', 12000), ('g2w', 6000), ('gd', 1500), ('ca', 1500)],
                 t=[('g2', 300000), ('g2w', 150000), ('gd', 30000), ('ca', 30000), ('vg', 400)], stub=STUB_IO),
-    'C16': dict(level='exploration', q=[('g2', 120000), ('gd', 6000)], t=[('g2', 4000000), ('gd', 150000), ('ca', 150000)], stub=STUB_GRAPH),
+    'C16': dict(level='exploration', q=[('g2', 120000), ('gd', 6000)], t=[('g2', 1500000), ('gd', 150000), ('ca', 150000)], stub=STUB_GRAPH),
     'C17': dict(level='exploration', q=[('gd', 6000), ('ca', 6000), ('g2', 6000)],
                 t=[('gd', 150000), ('ca', 150000), ('g2', 150000), ('g0', 150000), ('c2', 150000), ('g14', 150000), ('vg', 300)], stub=STUB_IO),
     'C18': dict(level='exploration', q=[('ts', 50000)], t=[('ts', 1500000)],
@@ -506,7 +506,7 @@ def main(argv):
         if not ok:
             log('check: ThreadSanitizer is not functional here; no verdict')
             return 2
-    deadline = 55.0 if tier == 'quick' else 540.0
+    deadline = 55.0 if tier == 'quick' else 300.0
     batches = []
     for cfg, n in plan_cfgs:
         n = max(1, int(n * a.scale))
